@@ -1150,3 +1150,49 @@ def km6(P, C):
     C.ob("KM-6", "read_key(std::string)", "stored-value-returned-as-is", ok, f.loc(bad[0][0]) if bad else f.where(),
          "the result is assigned once, from the pointer get_aux_value returned" if ok else
          "the string handed back is not the stored value as it is: %s" % (", ".join("%s at %s" % (t[1], f.loc(t[0])) for t in bad) or "no assignment from the stored value"))
+
+
+def km7(P, C):
+    """KM-7: release sizes of the key store."""
+    C.rule("KM-7", "every release of a stored key or value passes `strlen(<that string>) + 1` — the size it was obtained with (TS-4c) — in clear(), "
+           "remove_key and the overwrite path of write_key; an entry (a pair of pointers) is released with 2; and the key array that write_key "
+           "installs is obtained with exactly the count `naux` takes when it is installed (`allocate(naux + 1)` with one `naux++`, the old "
+           "array released with the old count)", floor=8)
+    n = 0
+    for f in sorted(P.functions.values(), key=lambda g: (g.name, str(g.targs))):
+        if f.unit != "driver" or f.cls != ts.CLS or f.name not in ("clear", "remove_key", "write_key"):
+            continue
+        name = ts.fshort(f)
+        at = vg.atomizer(f, ())
+        for i, cal in f.calls():
+            if not cal or cal["name"] != "deallocate":
+                continue
+            a = f.args(i)
+            r = ts.root_member(f, a[0])
+            if not r or r[0] != "aux":
+                continue
+            t0 = core.atom_text(f, a[0])
+            if r[1] == 2:           # a key or value string
+                want = "strlen((&%s[0]))" % t0
+                got = f.render(a[1]).replace("this->", "").replace(" ", "")
+                ok = got in ("(%s+1)" % want, "(1+%s)" % want, "(strlen(&%s[0])+1)" % t0)
+                n += 1
+                C.ob("KM-7", name, "string-release-size@%s" % t0[-14:], ok, f.loc(i),
+                     "released with strlen + 1" if ok else "%s is released with `%s`, not with the strlen()+1 it was obtained with" % (t0, f.render(a[1])[:60]))
+            elif r[1] == 1:         # an entry
+                ok = f.nodes[f.strip(a[1])].get("cv", f.nodes[f.strip(a[1])].get("v")) == 2
+                n += 1
+                C.ob("KM-7", name, "entry-release-size@%s" % t0[-10:], ok, f.loc(i), "an entry is released as 2 pointers: %s" % f.render(a[1]))
+        if f.name == "write_key":
+            # the append path: new array obtained with naux + 1
+            news = [i for i, cal in f.calls() if cal and cal["name"] == "allocate" and "char **" in (f.nodes[i].get("t", "") + str(cal.get("targs", ""))) or
+                    (cal and cal["name"] == "allocate" and f.parent[i] >= 0 and "new_aux" in f.render(f.parent[f.parent[i]] if f.parent[f.parent[i]] >= 0 else f.parent[i])[:40])]
+            arr = [i for i in news if core.poly(f, f.args(i)[0], at) == Poly.atom("naux") + Poly.const(1)]
+            incs = [x for x in f.walk() if f.k(x) == "UnaryOperator" and f.nodes[x].get("op") == "++" and core.atom_text(f, f.nodes[x]["ch"][0]) == "naux"]
+            n += 1
+            C.ob("KM-7", name, "key-array-count", bool(arr) and len(incs) == 1, f.loc(arr[0]) if arr else f.where(),
+                 "the new key array has naux + 1 entries and naux is incremented once" if arr and len(incs) == 1 else
+                 "the key array installed by the append path is not obtained with exactly naux + 1 entries (allocations seen: %s; increments of naux: %d): "
+                 "it is later released with naux" % ([f.render(f.args(i)[0]) for i in news][:3], len(incs)))
+    if n < 8:
+        raise core.AnalysisBroken("KM-7: expected the releases of clear(), remove_key and write_key, found %d" % n)
